@@ -12,7 +12,7 @@ func init() {
 	register(&Property{
 		ID:    "C10",
 		Title: "Store gateway answers equal a direct TSDB read of the same blocks",
-		Explain: "One structural necessary condition only — cache-key non-interference. The expanded-postings cache is keyed by block and matchers (C13), not by the request's time range, so what is stored must not depend on the time range: in blockSeriesClient.nextBatch every append to b.expandedPostings is evaluated (E9) over all path conditions that lead to it — lazy-expansion flag, lazy-matcher outcome, and every boolean derived from a call that takes the request's mint/maxt — and must be the same for both values of each time-derived condition; the list is written to the cache only at end of stream, from that field. " +
+		Explain: "Two structural necessary conditions. (A) Posting-group algebra: the three sorted two-pointer walks of postingGroup.mergeKeys are read off the syntax (which comparison case emits which element, which tails are copied, how the cursors advance) and must be the union of the remove keys (both add-all), add keys minus the remove keys of the add-all group (exactly one add-all) and the intersection of the add keys (neither); a return that skips the subtraction must be guarded by a condition that implies the two key ranges are disjoint on every ordering of their first/last elements. (B) Cache-key non-interference. The expanded-postings cache is keyed by block and matchers (C13), not by the request's time range, so what is stored must not depend on the time range: in blockSeriesClient.nextBatch every append to b.expandedPostings is evaluated (E9) over all path conditions that lead to it — lazy-expansion flag, lazy-matcher outcome, and every boolean derived from a call that takes the request's mint/maxt — and must be the same for both values of each time-derived condition; the list is written to the cache only at end of stream, from that field. " +
 			"A warm entry written by a narrow-range request is otherwise missing series for a later wide-range request with the same selectors.",
 		Assume: []string{"equality with a TSDB read for arbitrary blocks, selectors, batch sizes, partitioning and index-header sampling is a differential runtime property and is not decided"},
 		Run:    runC10,
@@ -21,11 +21,13 @@ func init() {
 
 func runC10(c *Ctx) {
 	c.Rule("cached-postings-independent-of-time-range", "what enters the expanded-postings cache does not depend on mint/maxt", 2)
+	c.Rule("posting-group-merge-algebra", "mergeKeys: union of removes / adds minus removes / intersection of adds, as sorted walks", 3)
 	p := c.Load("pkg/store")
 	if p == nil {
 		return
 	}
 	const rel = "pkg/store"
+	runC10Merge(c, p)
 	fn := p.Func(rel, "blockSeriesClient", "nextBatch")
 	if fn == nil {
 		c.Incomplete("cached-postings-independent-of-time-range", rel+".(*blockSeriesClient).nextBatch", "", "function not found")
@@ -221,4 +223,196 @@ func envString(env map[string]int64, keys []string) string {
 		parts = append(parts, fmt.Sprintf("%s=%d", k, env[k]))
 	}
 	return strings.Join(parts, " ")
+}
+
+// posting-group algebra: matchers on one label name are folded by postingGroup.mergeKeys with three
+// sorted walks. add-all ∧ add-all: the remove sets are united; exactly one add-all: its remove keys are
+// subtracted from the other's add keys; neither: the add keys are intersected.
+func runC10Merge(c *Ctx, p *Prog) {
+	const rule = "posting-group-merge-algebra"
+	const rel = "pkg/store"
+	construct := rel + ".(postingGroup).mergeKeys"
+	fn := p.Func(rel, "postingGroup", "mergeKeys")
+	if fn == nil {
+		c.Incomplete(rule, construct, "", "function not found")
+		return
+	}
+	info := fn.Info()
+	recv := recvObj(fn)
+	var other types.Object
+	if ps := fn.Decl.Type.Params; ps != nil && len(ps.List) == 1 && len(ps.List[0].Names) == 1 {
+		other = info.Defs[ps.List[0].Names[0]]
+	}
+	if recv == nil || other == nil {
+		c.Incomplete(rule, construct, p.Pos(fn.Decl.Pos()), "receiver / parameter not recognised")
+		return
+	}
+	rn, on := recv.Name(), other.Name()
+	var chain *ast.IfStmt
+	for _, st := range fn.Body().List {
+		if ifs, ok := st.(*ast.IfStmt); ok && canon(ifs.Cond) == rn+".addAll&&"+on+".addAll" {
+			chain = ifs
+		}
+	}
+	if chain == nil {
+		c.Incomplete(rule, construct, p.Pos(fn.Decl.Pos()), "the case split on the two add-all flags was not found")
+		return
+	}
+	second, _ := chain.Else.(*ast.IfStmt)
+	if second == nil || (canon(second.Cond) != rn+".addAll||"+on+".addAll" && canon(second.Cond) != on+".addAll||"+rn+".addAll") {
+		c.Incomplete(rule, construct, p.Pos(chain.Pos()), "the `exactly one add-all` case was not found")
+		return
+	}
+	third, _ := second.Else.(*ast.BlockStmt)
+	if third == nil {
+		c.Incomplete(rule, construct, p.Pos(second.Pos()), "the `no add-all` case was not found")
+		return
+	}
+	type branch struct {
+		name, op, fa, fb string
+		list             []ast.Stmt
+		result           string // field of the receiver that takes the walk's output
+	}
+	for _, br := range []branch{
+		{"both-add-all", "union", "removeKeys", "removeKeys", chain.Body.List, "removeKeys"},
+		{"one-add-all", "difference", "addKeys", "removeKeys", second.Body.List, "addKeys"},
+		{"no-add-all", "intersection", "addKeys", "addKeys", third.List, "addKeys"},
+	} {
+		cons := construct + "#" + br.name
+		w := findMergeWalk(p, fn, br.list)
+		if w == nil {
+			c.Bad(rule, cons, p.Pos(fn.Decl.Pos()), "walk-missing", "no sorted two-pointer walk over the two key lists in this case")
+			continue
+		}
+		var probs []string
+		probs = append(probs, w.Problems...)
+		if op := w.Op(); op != br.op && len(w.Problems) == 0 {
+			probs = append(probs, fmt.Sprintf("%s: the walk computes %s of %s and %s; this case needs their %s", p.Pos(w.Loop.Pos()), op, w.A, w.B, br.op))
+		}
+		if listField(w.A) != br.fa || listField(w.B) != br.fb || (w.A == w.B) {
+			probs = append(probs, fmt.Sprintf("%s: the walk runs over %s and %s; this case needs the %s of one group and the %s of the other", p.Pos(w.Loop.Pos()), w.A, w.B, br.fa, br.fb))
+		}
+		// who is who in the subtraction: the group with add-all is the one whose remove keys are subtracted
+		if br.op == "difference" {
+			ownerA, ownerB := strings.TrimSuffix(w.A, "."+br.fa), strings.TrimSuffix(w.B, "."+br.fb)
+			defaults, swapped := map[string]string{}, map[string]string{}
+			for _, st := range br.list {
+				switch v := st.(type) {
+				case *ast.AssignStmt:
+					if len(v.Lhs) == 1 && len(v.Rhs) == 1 {
+						defaults[canon(v.Lhs[0])] = canon(v.Rhs[0])
+					}
+				case *ast.IfStmt:
+					if canon(v.Cond) == rn+".addAll" && v.Else == nil {
+						for _, s := range v.Body.List {
+							if as, ok := s.(*ast.AssignStmt); ok && len(as.Lhs) == 1 && len(as.Rhs) == 1 {
+								swapped[canon(as.Lhs[0])] = canon(as.Rhs[0])
+							}
+						}
+					}
+				}
+				if st == ast.Stmt(w.Loop) {
+					break
+				}
+			}
+			okRoles := defaults[ownerB] == on && defaults[ownerA] == "&"+rn && swapped[ownerB] == "&"+rn && swapped[ownerA] == on
+			if !okRoles {
+				probs = append(probs, fmt.Sprintf("%s: the remove keys must come from the group that has add-all (%s when %s.addAll, else %s) and the add keys from the other; found defaults %v, swapped %v", p.Pos(second.Pos()), rn, rn, on, defaults, swapped))
+			}
+		}
+		// exits before the walk
+		for _, st := range br.list {
+			if st == ast.Stmt(w.Loop) {
+				break
+			}
+			var visit func(ifs *ast.IfStmt)
+			visit = func(ifs *ast.IfStmt) {
+				hasRet := false
+				for _, s := range ifs.Body.List {
+					if _, ok := s.(*ast.ReturnStmt); ok {
+						hasRet = true
+					}
+				}
+				if hasRet {
+					guard := canon(ifs.Cond)
+					switch {
+					case br.op == "union" && guard == "len("+w.A+")==0":
+						found := false
+						for _, s := range ifs.Body.List {
+							if as, ok := s.(*ast.AssignStmt); ok && len(as.Lhs) == 1 && canon(as.Lhs[0]) == rn+"."+br.result && canon(as.Rhs[0]) == w.B {
+								found = true
+							}
+						}
+						if !found {
+							probs = append(probs, p.Pos(ifs.Pos())+": with an empty "+w.A+" the union is "+w.B+", which is not what is returned")
+						}
+					case br.op == "union" && guard == "len("+w.B+")==0":
+						for _, s := range ifs.Body.List {
+							if _, ok := s.(*ast.ReturnStmt); !ok {
+								probs = append(probs, p.Pos(s.Pos())+": with an empty "+w.B+" the union is "+w.A+" unchanged")
+							}
+						}
+					case br.op == "difference":
+						cond := ifs.Cond
+						cex, err := boundaryGuardImpliesDisjoint(p, fn, cond, w.A, w.B)
+						switch {
+						case err != nil:
+							probs = append(probs, "a return before the subtraction walk is guarded by a condition this analysis cannot decide: "+err.Error())
+						case cex != "":
+							probs = append(probs, p.Pos(ifs.Pos())+": the walk that subtracts "+w.B+" from "+w.A+" is skipped under `"+exprString(cond)+"`, which does not imply that nothing is to be subtracted — "+cex)
+						}
+					default:
+						probs = append(probs, p.Pos(ifs.Pos())+": a return before the walk under `"+exprString(ifs.Cond)+"` is not one of the empty-list shortcuts")
+					}
+				}
+				if e, ok := ifs.Else.(*ast.IfStmt); ok {
+					visit(e)
+				}
+			}
+			if ifs, ok := st.(*ast.IfStmt); ok {
+				visit(ifs)
+			}
+			if _, ok := st.(*ast.ReturnStmt); ok {
+				probs = append(probs, p.Pos(st.Pos())+": unconditional return before the walk")
+			}
+		}
+		// the result takes the walk's output
+		okRes := false
+		var flagsOK = br.op != "difference"
+		nilled, cleared := false, false
+		after := false
+		for _, st := range br.list {
+			if st == ast.Stmt(w.Loop) {
+				after = true
+				continue
+			}
+			as, ok := st.(*ast.AssignStmt)
+			if !after || !ok || len(as.Lhs) != 1 || len(as.Rhs) != 1 {
+				continue
+			}
+			l, r := canon(as.Lhs[0]), canon(as.Rhs[0])
+			switch {
+			case l == rn+"."+br.result:
+				if w.OutCount != nil {
+					okRes = r == w.A+"[:"+w.OutCount.Name()+"]"
+				} else {
+					okRes = r == w.Out
+				}
+			case l == rn+".addAll" && r == "false":
+				cleared = true
+			case l == rn+".removeKeys" && r == "nil":
+				nilled = true
+			}
+		}
+		if br.op == "difference" {
+			flagsOK = cleared && nilled
+		}
+		if !okRes {
+			probs = append(probs, fmt.Sprintf("%s: the output of the walk is not what %s.%s is set to", p.Pos(w.Loop.Pos()), rn, br.result))
+		}
+		if !flagsOK {
+			probs = append(probs, fmt.Sprintf("%s: after the subtraction the group must stop being add-all and drop its remove keys", p.Pos(w.Loop.Pos())))
+		}
+		c.Check(len(probs) == 0, rule, cons, p.Pos(w.Loop.Pos()), "merge-walk:"+br.op, strings.Join(probs, "; "))
+	}
 }
